@@ -212,6 +212,21 @@ def NameOk (s : List Char) : Prop := (∀ c ∈ s, c ∉ forbidden) ∧ EdgeOk s
 theorem NameOk.not_mem {s : List Char} (h : NameOk s) {c : Char} (hc : c ∈ forbidden) : c ∉ s :=
   fun hm => h.1 c hm hc
 
+/-- characters a format *modifier* must not contain: it is free text otherwise (a `/` inside it is
+fine, the name ends at the first `/`) -/
+def modForbidden : List Char := [',', ':', ';', '!', '<']
+
+/-- a modifier the serialised form can express: none of `, : ; ! <`, no blank at its end -/
+def ModOk (m : List Char) : Prop :=
+  (∀ c ∈ m, c ∉ modForbidden) ∧ (∀ c, m.getLast? = some c → isSpace c = false)
+
+theorem modForbidden_sub {x : Char} (h : x ∈ modForbidden) : x ∈ forbidden ∧ x ≠ '/' := by
+  simp only [modForbidden, List.mem_cons, List.not_mem_nil, or_false] at h
+  rcases h with rfl | rfl | rfl | rfl | rfl <;> exact ⟨by decide, by decide⟩
+
+theorem NameOk.modOk {s : List Char} (h : NameOk s) : ModOk s :=
+  ⟨fun c hc hf => h.1 c hc (modForbidden_sub hf).1, h.2.2⟩
+
 theorem parseWidthNums_dec (ns : List Nat) : parseWidthNums (ns.map natToDec) = .ok ns := by
   induction ns with
   | nil => rfl
@@ -378,7 +393,7 @@ def pcolOf (c : Col) : PCol :=
     width := .range c.minW c.maxW }
 
 /-- the column's name and modifier can be expressed in a format string -/
-def ColNameOk (c : Col) : Prop := NameOk c.field.name ∧ ∀ m, c.modifier = some m → NameOk m
+def ColNameOk (c : Col) : Prop := NameOk c.field.name ∧ ∀ m, c.modifier = some m → ModOk m
 
 theorem splitArrow_none (s : List Char) (h : '<' ∉ s) : splitArrow s = (s, Option.none) := by
   simp [splitArrow, findArrow_none s h]
@@ -418,14 +433,15 @@ theorem mem_modStr (x : Char) (m : Option (List Char)) (h : x ∈ modStr m) :
     · exact Or.inl h
     · exact Or.inr ⟨mod, rfl, h⟩
 
-theorem nameMod_not_mem (c : Col) (h : ColNameOk c) (x : Char) (hf : x ∈ forbidden) (hs : x ≠ '/') :
+theorem nameMod_not_mem (c : Col) (h : ColNameOk c) (x : Char) (hx : x ∈ modForbidden) :
     x ∉ c.field.name ++ modStr c.modifier := by
+  obtain ⟨hf, hs⟩ := modForbidden_sub hx
   intro hm
   rcases List.mem_append.mp hm with hm | hm
   · exact h.1.not_mem hf hm
   · rcases mem_modStr x _ hm with e | ⟨mod, hmod, hx⟩
     · exact hs e
-    · exact (h.2 mod hmod).not_mem hf hx
+    · exact (h.2 mod hmod).1 x hx ‹x ∈ modForbidden›
 
 theorem parseHead_colHead (c : Col) (h : ColNameOk c) (w : PWidth) :
     parseHead (colHead c) w = { pcolOf c with width := w } := by
@@ -433,11 +449,11 @@ theorem parseHead_colHead (c : Col) (h : ColNameOk c) (w : PWidth) :
   have harrow : '<' ∉ c.field.name ++ modStr c.modifier ++ brkStr c.breakBy := by
     intro hm
     rcases List.mem_append.mp hm with hm | hm
-    · exact nameMod_not_mem c h '<' (by decide) (by decide) hm
+    · exact nameMod_not_mem c h '<' (by decide) hm
     · unfold brkStr at hm; split at hm <;> simp at hm
   rw [splitArrow_none _ harrow]
   simp only
-  rw [splitBreak_brkStr _ _ (nameMod_not_mem c h '!' (by decide) (by decide))]
+  rw [splitBreak_brkStr _ _ (nameMod_not_mem c h '!' (by decide))]
   simp only
   rw [splitModifier_modStr _ _ (h.1.not_mem (by decide))]
   rfl
@@ -464,18 +480,32 @@ theorem colHead_edgeOk (c : Col) (h : ColNameOk c) : EdgeOk (colHead c) := by
   refine (h.1.2.append ?_).append ?_
   · cases hm : c.modifier with
     | none => exact edgeOk_of_all _ (by simp [modStr])
-    | some m => exact edgeOk_cons _ _ (isSpace_false_of_range _ (by decide)) (h.2 m hm).2
+    | some m =>
+      have hslash : isSpace '/' = false := isSpace_false_of_range _ (by decide)
+      refine ⟨fun x hx => by simp [modStr] at hx; subst hx; exact hslash, fun x hx => ?_⟩
+      simp only [modStr] at hx
+      cases hl : m.getLast? with
+      | none =>
+        have : m = [] := by simpa using hl
+        subst this; simp at hx; subst hx; exact hslash
+      | some y =>
+        have : ('/' :: m).getLast? = some y := by
+          rw [show '/' :: m = ['/'] ++ m from rfl, List.getLast?_append, hl]; rfl
+        rw [this] at hx
+        have : y = x := by simpa using hx
+        subst this
+        exact (h.2 m hm).2 y hl
   · unfold brkStr
     split
     · exact edgeOk_of_all _ (by intro x hx; simp at hx; subst hx; decide)
     · exact edgeOk_of_all _ (by simp)
 
-theorem colHead_not_mem (c : Col) (h : ColNameOk c) (x : Char) (hf : x ∈ forbidden) (h1 : x ≠ '/') (h2 : x ≠ '!') :
+theorem colHead_not_mem (c : Col) (h : ColNameOk c) (x : Char) (hf : x ∈ modForbidden) (h2 : x ≠ '!') :
     x ∉ colHead c := by
   unfold colHead
   intro hm
   rcases List.mem_append.mp hm with hm | hm
-  · exact nameMod_not_mem c h x hf h1 hm
+  · exact nameMod_not_mem c h x hf hm
   · unfold brkStr at hm; split at hm <;> simp at hm; exact h2 hm
 
 theorem widthStr_chars (c : Col) : ∀ x ∈ widthStr c, x.isDigit = true ∨ x = '-' ∨ x = '(' ∨ x = ')' := by
@@ -517,7 +547,7 @@ theorem widthStr_edgeOk (c : Col) : EdgeOk (widthStr c) := by
 
 theorem parseCol_colToStr (c : Col) (h : ColNameOk c) : parseCol (colToStr c) = .ok (pcolOf c) := by
   unfold parseCol colToStr
-  rw [splitOn_append _ _ _ (colHead_not_mem c h ':' (by decide) (by decide) (by decide)),
+  rw [splitOn_append _ _ _ (colHead_not_mem c h ':' (by decide) (by decide)),
     splitOn_no_sep _ _ (widthStr_not_mem c ':' (by decide) (by decide) (by decide) (by decide))]
   simp only [List.map_cons, List.map_nil, strip_id _ (colHead_edgeOk c h), strip_id _ (widthStr_edgeOk c)]
   rw [parseWidth_widthStr]
@@ -527,10 +557,10 @@ theorem parseCol_colToStr (c : Col) (h : ColNameOk c) : parseCol (colToStr c) = 
 theorem colToStr_not_mem (c : Col) (h : ColNameOk c) (x : Char) (hx : x = ',' ∨ x = ';') : x ∉ colToStr c := by
   unfold colToStr
   intro hm
-  have hf : x ∈ forbidden := by rcases hx with rfl | rfl <;> decide
+  have hf : x ∈ modForbidden := by rcases hx with rfl | rfl <;> decide
   simp only [List.mem_append, List.mem_cons] at hm
   rcases hm with hm | hm | hm
-  · exact colHead_not_mem c h x hf (by rcases hx with rfl | rfl <;> decide) (by rcases hx with rfl | rfl <;> decide) hm
+  · exact colHead_not_mem c h x hf (by rcases hx with rfl | rfl <;> decide) hm
   · rcases hx with rfl | rfl <;> cases hm
   · refine widthStr_not_mem c x ?_ ?_ ?_ ?_ hm <;> rcases hx with rfl | rfl <;> decide
 
